@@ -1299,6 +1299,7 @@ impl PeerConnection {
     pub fn set_local_description(&self, desc: SessionDescription) -> RtcResult<()> {
         self.inner.validate_sdp_type(&desc.sdp_type)?;
 
+        let mut next_state = None;
         {
             let state = &self.inner.signaling_state;
             match desc.sdp_type {
@@ -1308,7 +1309,7 @@ impl PeerConnection {
                             "set_local_description(offer) requires stable signaling state".into(),
                         ));
                     }
-                    let _ = state.send(SignalingState::HaveLocalOffer);
+                    next_state = Some(SignalingState::HaveLocalOffer);
                 }
                 SdpType::Answer => {
                     if *state.borrow() != SignalingState::HaveRemoteOffer {
@@ -1316,7 +1317,7 @@ impl PeerConnection {
                             "set_local_description(answer) requires remote offer".into(),
                         ));
                     }
-                    let _ = state.send(SignalingState::Stable);
+                    next_state = Some(SignalingState::Stable);
                 }
                 SdpType::Pranswer => {
                     if *state.borrow() != SignalingState::HaveRemoteOffer {
@@ -1390,8 +1391,13 @@ impl PeerConnection {
             }
         }
 
-        let mut local = self.inner.local_description.lock();
-        *local = Some(desc);
+        *self.inner.local_description.lock() = Some(desc);
+        if let Some(next) = next_state {
+            let _ = self.inner.signaling_state.send(next);
+        } else {
+            // pranswer: state unchanged, but waiters on the descriptions must re-check
+            self.inner.signaling_state.send_modify(|_| {});
+        }
         Ok(())
     }
 
@@ -3943,6 +3949,28 @@ async fn run_rtp_direct_loop(
         match ice_state {
             crate::transports::ice::IceTransportState::Connected
             | crate::transports::ice::IceTransportState::Completed => {
+                // SDES keys are taken from both descriptions: do not start the transport
+                // before the offer/answer exchange has stored them.
+                let sig_rx = inner_weak.upgrade().and_then(|inner| {
+                    (inner.config.transport_mode == TransportMode::Srtp)
+                        .then(|| inner.signaling_state.subscribe())
+                });
+                if let Some(mut sig_rx) = sig_rx {
+                    loop {
+                        let Some(inner) = inner_weak.upgrade() else {
+                            return;
+                        };
+                        let ready = inner.local_description.lock().is_some()
+                            && inner.remote_description.lock().is_some();
+                        drop(inner);
+                        if ready {
+                            break;
+                        }
+                        if sig_rx.changed().await.is_err() {
+                            return;
+                        }
+                    }
+                }
                 if !handle_connected_state_no_dtls(&inner_weak, &mut ice_state_rx).await {
                     return;
                 }
